@@ -1,9 +1,11 @@
 //! `mc` — bounded exhaustive exploration of the real ruschm interpreter (see /verif/DESIGN.md).
 pub mod drive;
+pub mod enumerate;
 pub mod numgrid;
 pub mod par;
 pub mod props;
 pub mod refnum;
+pub mod refsem;
 pub mod report;
 pub mod sexp;
 
@@ -44,6 +46,13 @@ fn usage() -> ! {
 
 fn main() {
     let args: Vec<String> = std::env::args().collect();
+    // glibc per-thread arenas grow and trim with mprotect(); with 16 allocation-heavy workers this
+    // serialises on the address-space lock. Keep freed memory instead.
+    unsafe {
+        libc::mallopt(libc::M_TRIM_THRESHOLD, 1 << 30);
+        libc::mallopt(libc::M_TOP_PAD, 64 << 20);
+        libc::mallopt(libc::M_MMAP_THRESHOLD, 1 << 30);
+    }
     drive::install_panic_hook();
     if args.len() < 3 {
         usage();
@@ -87,6 +96,40 @@ fn main() {
                 println!("replay of {}: does not violate", args[2]);
                 std::process::exit(0);
             }
+        }
+        "leaktest" => {
+            fn rss() -> u64 {
+                let s = std::fs::read_to_string("/proc/self/statm").unwrap();
+                s.split_whitespace().nth(1).unwrap().parse::<u64>().unwrap() * 4
+            }
+            let which = args[2].as_str();
+            let mut w = props::c01::new_worker();
+            let forms = sexp::parse_all("(define (tf a) (- a 1)) (tf (tick 1 2))");
+            let r0 = rss();
+            for _ in 0..20000 {
+                match which {
+                    "ref" => {
+                        let mut m = refsem::Machine::new(refsem::POLICIES[0]);
+                        for f in sexp::parse_all(props::c01::PRELUDE) {
+                            m.eval_top(&f).unwrap();
+                        }
+                        for f in &forms {
+                            let _ = m.eval_top(f);
+                        }
+                    }
+                    "impl" => {
+                        w.it.fresh_frame();
+                        for f in &forms {
+                            let _ = w.it.eval_traced(&f.to_string());
+                        }
+                    }
+                    "implexpr" => {
+                        let _ = w.it.eval_traced("(- 2 1)");
+                    }
+                    _ => {}
+                }
+            }
+            println!("{}: rss grew {} KB over 20000 iterations", which, rss() - r0);
         }
         _ => usage(),
     }
